@@ -459,7 +459,7 @@ impl Real {
         out.op(format!("RESET {}", rid), "ok".into());
         r
     }
-    fn log(&mut self, out: &mut Out, op: String, ans: String) {
+    pub fn log(&mut self, out: &mut Out, op: String, ans: String) {
         self.text.push_str(&op);
         self.text.push(';');
         out.op(op, ans);
@@ -488,8 +488,12 @@ impl Real {
         self.log(out, format!("TORNSEG {}", id), "ok".into());
     }
     pub async fn chk(&mut self, out: &mut Out, name: u64, last: u64, state: &HashMap<String, ReplicatedValue>) {
-        let data = CheckpointWriter::new(Compression::None).write(state.clone(), name, last).unwrap();
-        self.store.put(&chk_key(name), &data).await.unwrap();
+        // half of the checkpoints go through CheckpointManager::create_checkpoint (time source = the name)
+        let via_manager = (name + last) % 2 == 0 && crate::c11x::chk_via_manager(out, self, name, last, state).await;
+        if !via_manager {
+            let data = CheckpointWriter::new(Compression::None).write(state.clone(), name, last).unwrap();
+            self.store.put(&chk_key(name), &data).await.unwrap();
+        }
         let mut l: Vec<Upd> = state.iter().map(|(k, v)| (k.clone(), v.clone())).collect();
         l.sort_by(|a, b| key_cmp(&a.0, &b.0));
         self.chk_content = l.clone();
@@ -680,6 +684,9 @@ async fn layout(out: &mut Out, rng: &mut Rng, ups: &[Upd], force_chk_first: bool
     }
     real.msave(out).await;
     out.count(&format!("layout:segments={}", real.man.segments.len()));
+    if rng.chance(1, 3) {
+        crate::c11x::extras(out, rng, &mut real, ups).await;
+    }
     let r = real.rec(out).await;
     let persisted = real.persisted();
     let inv = manifest_inv(&real.man);
@@ -883,6 +890,7 @@ async fn case(out: &mut Out, rng: &mut Rng, corpus: Option<&str>) {
         let fsz = *rng.pick(&[64usize, 300, 1 << 20]);
         real.set_wal(out, &wal, fsz);
         let r = real.recwal(out).await;
+        crate::c11x::production_startup(out, &mut real).await;
         let persisted = real.persisted();
         wal_oracle(out, &real, &r, &persisted, &wal);
         if let Some((state, snap)) = real.apply(out, &r, "APPLYWAL").await {
